@@ -167,7 +167,9 @@ def handle (j : Json) : Except String Verdict := do
   for x in (← getArr j "cross_out").toList do
     let s ← getStr x "from"
     let d ← getStr x "to"
-    paths := paths ++ [{ name := s!"x:{s}>{d}", src := s, dst := d, out := get x "out", batch := getOpt x "batch" }]
+    let first := (getStr x "first").toOption
+    let nm := match first with | some f => s!"reuse:{s}>{f}>{d}" | none => s!"x:{s}>{d}"
+    paths := paths ++ [{ name := nm, src := s, dst := d, out := get x "out", batch := getOpt x "batch" }]
   let marrowOut := get ser "marrow"
   let mcls := pathCls marrowOut
   let marrs ← if mcls == "ok" then arraysOf marrowOut else pure []
